@@ -13,30 +13,6 @@ open Bpp Bpp.Scalar
 
 variable {α : Type} [Scalar α]
 
-/-- `resolved`: the comparator precision does not interfere with the raw class values of
-`discretizeEqualProportions`: the adjustments near the ends of the domain leave them unchanged
-and consecutive values are further apart than the precision -/
-def listEqB : List α → List α → Bool
-  | [], [] => true
-  | a :: as, b :: bs => Scalar.eqb a b && listEqB as bs
-  | _, _ => false
-
-def separated (prec : α) : List α → Bool
-  | a :: b :: t => TMap.lt prec a b && separated prec (b :: t)
-  | _ => true
-
-def resolved (par : Parent α) (s : DD α) : Bool :=
-  let raw := (eqPropRaw par s).2
-  listEqB (adjust s.dom s.prec raw) raw && separated s.prec raw
-
-/-- the classes of the equal-interval scheme are wider than the comparator precision -/
-def eqIntResolved (s : DD α) : Bool :=
-  s.n ≤ 1 || TMap.lt s.prec Scalar.zero ((s.dom.hi - s.dom.lo) / nat s.n)
-
-/-- the state is the result of `discretizeEqualProportions` (and not of the equal-interval scheme) -/
-def eqProbBranch (par : Parent α) (s : DD α) : Bool :=
-  s.scheme == 1 || (s.scheme == 3 && !(hasEqualNeighbours (s.dom.lo :: (eqPropRaw par s).1 ++ [s.dom.hi])))
-
 /-- an object that is not itself a compound -/
 inductive Leaf (α : Type) where
   | fam (slot : Nat) (f : FamSt α)
